@@ -16,9 +16,13 @@ OPS = {'po': {'eqs': ["d/dt * x = -k*x + u"], 'vars': {'x': 'output(0.5)', 'k': 
        'qo': {'eqs': ["d/dt * z = -g*z + w"], 'vars': {'z': 'output(0.3)', 'g': 2.0, 'w': 'input(0.0)'}},
        'co': {'eqs': ["cout = gc*x_pre*(1 - 0.5*x_post)"],
               'vars': {'cout': 'output(0.0)', 'x_pre': 'input(0.0)', 'x_post': 'input(0.0)', 'gc': 1.0}},
+       'rq': {'eqs': ["d/dt * q = -q + x"], 'vars': {'q': 'output(0.05)', 'x': 'input(0.0)'}},
        'lo': {'eqs': ["d/dt * s = (r_pre - s)/tau", "sout = s"],
               'vars': {'s': 'variable(0.0)', 'sout': 'output(0.0)', 'r_pre': 'input(0.0)', 'tau': 0.5}}}
-POPOP = {'e': ('po', 'x', 'u', 'k'), 'i': ('qo', 'z', 'w', 'g'), 'f': ('po', 'x', 'u', 'k')}
+POPOP = {'e': ('po', 'x', 'u', 'k'), 'i': ('qo', 'z', 'w', 'g'), 'f': ('po', 'x', 'u', 'k'), 'g': ('po', 'x', 'u', 'k')}
+# population g: every unit has a second operator that reads x of its own unit (it must see the present value of x also
+# when a delayed connection leaves g/po/x)
+READER = {'g': 'rq'}
 
 
 def het(n, base, step):
@@ -30,7 +34,7 @@ SCALAR_POPS = ()    # populations whose rate parameter is given as ONE scalar fo
 
 def pop_params(pop, n):
     op, sv, iv, kv = POPOP[pop]
-    off = {'e': 0.0, 'i': 0.37, 'f': 0.71}[pop]
+    off = {'e': 0.0, 'i': 0.37, 'f': 0.71, 'g': 0.13}[pop]
     k = 1.75 + off if pop in SCALAR_POPS else het(n, 1.0 + off, 0.5)
     return {f'{op}/{kv}': k, f'{op}/{sv}': het(n, 0.2 + off, 0.15)}
 
@@ -132,6 +136,15 @@ def cases(tier, seed):
             cs = [{'src': 'e', 'tgt': 'i', 'W': W1}, {'src': 'e', 'tgt': 'i', 'W': W2}, {'src': 'e', 'tgt': 'e', 'W': W1}]
             add({'e': 2, 'i': 2}, [cs[k] for k in order], 'shared_weight_array')
             out[-1]['share_arrays'] = True
+    # units with two operators: the second reads x of its own unit while (delayed) connections leave x
+    for d, sp_ in ((None, None), (3 * DT, None), (2.6 * DT, None), (1.0, 0.5)):
+        for W in ([[0.0, 2.0], [-0.5, 0.0]], [[1.0, 0.0], [3.0, 2.0]]):
+            c1 = {'src': 'g', 'tgt': 'i', 'W': W}
+            if d:
+                c1['delay'] = d
+            if sp_:
+                c1['spread'] = sp_
+            add({'g': 2, 'i': 2}, [c1, {'src': 'i', 'tgt': 'g', 'W': [[1.5, -0.5], [0.25, 2.0]]}], 'reader_in_population')
     # a scalar entry in PopulationTemplate.params next to per-unit lists (broadcast to all units)
     for W in list(mats(2, 3, full=False))[2:8]:
         for sc in (['e'], ['i'], ['e', 'i']):
@@ -164,7 +177,8 @@ def reference(case):
         op, sv, iv, kv = POPOP[pop]
         pp = pop_params(pop, n)
         for j in range(n):
-            nodes[f'{pop}_{j}'] = [(op, {kv: at(pp[f'{op}/{kv}'], j), sv: pp[f'{op}/{sv}'][j]})]
+            nodes[f'{pop}_{j}'] = [(op, {kv: at(pp[f'{op}/{kv}'], j), sv: pp[f'{op}/{sv}'][j]})] + \
+                ([(READER[pop], {})] if pop in READER else [])
     etpls = {}
     for ci, c in enumerate(case['conns']):
         s, t = c['src'], c['tgt']
@@ -200,7 +214,7 @@ def build_pop(case):
     pops = {}
     for pop, n in case['pops'].items():
         op = POPOP[pop][0]
-        pops[pop] = PopulationTemplate(name=pop, node=NodeTemplate(f'node_{pop}', operators=[ops[op]]), n=n,
+        pops[pop] = PopulationTemplate(name=pop, node=NodeTemplate(f'node_{pop}', operators=[ops[op]] + ([ops[READER[pop]]] if pop in READER else [])), n=n,
                                        params={k: (list(v) if isinstance(v, list) else v) for k, v in pop_params(pop, n).items()})
     conns = []
     shared = {}    # with case['share_arrays']: connections with equal weights are given the SAME ndarray object
@@ -236,7 +250,10 @@ def build_explicit(case):
         op, sv, iv, kv = POPOP[pop]
         pp = pop_params(pop, n)
         for j in range(n):
-            nodes[f'{pop}_{j}'] = NodeTemplate(f'{pop}_{j}', operators={ops[op]: {kv: at(pp[f'{op}/{kv}'], j), sv: pp[f'{op}/{sv}'][j]}})
+            opd = {ops[op]: {kv: at(pp[f'{op}/{kv}'], j), sv: pp[f'{op}/{sv}'][j]}}
+            if pop in READER:
+                opd[ops[READER[pop]]] = {}
+            nodes[f'{pop}_{j}'] = NodeTemplate(f'{pop}_{j}', operators=opd)
     c = CircuitTemplate('explicit', nodes=nodes)
     for cn in case['conns']:
         s, t = cn['src'], cn['tgt']
@@ -340,6 +357,7 @@ def run_case(case):
     pool.fresh_state()
     steps = 10
     outs = {pop: f'{pop}/{POPOP[pop][0]}/{POPOP[pop][1]}' for pop in case['pops']}
+    outs.update({f'{pop}__reader': f'{pop}/{READER[pop]}/q' for pop in case['pops'] if pop in READER})
     try:
         circ = build_pop(case)
         extra = {'dde_approx': case['dde_approx']} if case.get('dde_approx') else {}
@@ -353,13 +371,14 @@ def run_case(case):
         rows = gamma_reference(case, m, steps)
     else:
         rows = solvers.euler_delayed(m, DT, steps - 1)
-    for pop, n in case['pops'].items():
-        op, sv = POPOP[pop][0], POPOP[pop][1]
+    targets = [(pop, n, POPOP[pop][0], POPOP[pop][1], pop) for pop, n in case['pops'].items()] + \
+        [(pop, n, READER[pop], 'q', f'{pop}__reader') for pop, n in case['pops'].items() if pop in READER]
+    for pop, n, op, sv, okey in targets:
         for j in range(n):
             p = f'{pop}_{j}/{op}/{sv}'
             exp = np.array([r[p] for r in rows])
             try:
-                col = df[pop] if n == 1 else df[(pop, j)]
+                col = df[okey] if n == 1 else df[(okey, j)]
             except Exception:
                 return viol('columns', got=[str(c) for c in df.columns])
             got = np.asarray(col, dtype=float).reshape(-1)
